@@ -487,6 +487,20 @@ func (c *Ctx) checkConstantTablesAST() {
 		return true
 	})
 	c.decide(posGate, "R14", "R14:cos:positive-dims", c.pos(cosApply.Pos()), "non-positive extents are refused", "ConstantOfShape builds tensors with non-positive extents (panic in gorgonia)")
+	// the fill: every element is the value - the audited form is zeros + AddScalar(value) of gorgonia (a hand-written
+	// fill loop has to get every element, for every element count and type)
+	if oi := c.opByName("ConstantOfShape"); oi != nil && oi.methods["Apply"] != nil {
+		t := c.applyTerm(oi.methods["Apply"])
+		if !strings.HasPrefix(t, "AddScalar(New(") {
+			saved := c.termInline
+			c.termInline, c.termMemo = true, nil
+			t = c.applyTerm(oi.methods["Apply"])
+			c.termInline, c.termMemo = saved, nil
+		}
+		okFill := strings.HasPrefix(t, "AddScalar(New(") && strings.Contains(t, "),.value,true)") && !strings.Contains(t, "WithBacking")
+		c.decide(okFill, "R14", "R14:cos:fill", c.pos(oi.methods["Apply"].Pos()), "the result is a new zero tensor of the requested shape plus the value (gorgonia's AddScalar): every element is the value",
+			"ConstantOfShape's result is not New(shape, type of value).AddScalar(value): "+t+" - whether every element becomes the value cannot be established")
+	}
 	if !dtypeFrom {
 		// the same fact on the resolved program: tensor.Of receives Dtype() of the receiver's value field, in Apply
 		// itself or in a helper that is handed that field
